@@ -74,7 +74,7 @@ macro_rules! int_harnesses {
         pub fn $nondec() {
             let u: u64 = kani::any();
             kani::cover!(u as i128 == <$t>::MAX as i128);
-            kani::cover!(u as i128 == <$t>::MAX as i128 + 1);
+            kani::cover!(u as i128 == <$t>::MAX as i128 + 1 || <$t>::MAX as i128 == u64::MAX as i128);
             let r = <$t>::try_from(Token::NonDecimalNumericProgramData(u));
             if (u as i128) <= (<$t>::MAX as i128) {
                 assert!(r == Ok(u as $t) && (u as $t) as i128 == u as i128, "C07/int::try_from/nondecimal-literal-converts-by-exact-value");
